@@ -12,6 +12,7 @@ TRUSTED = [
     "reference models in harness/common/refs.rs (cross-checked natively against serde_json/std by selftest)",
     "environment models/cuts listed per harness under 'stubs'",
     "the paper induction that composes kernel, block, tail and step lemmas (DESIGN.md section 4)",
+    "smt/mir2smt.py: semantics of the MIR operators used by the interpreted functions (validated on every run by concrete execution of the same MIR against exact rational rounding); z3 5.1.0 / cvc5 1.0.3 on QF_LIA",
 ]
 
 OUTSIDE = {}  # filled by plan_claims.py (kept separate to keep this file mechanical)
@@ -60,6 +61,7 @@ def write_evidence(prop, tier, seed, hs, results, wall, nviol, known, inconclusi
             "solver_time_s": r.get("verification_time_s"),
             "wall_s": r.get("wall_s"),
             "note": r.get("note"),
+            **({"smt": r["smt"]} if r.get("smt") else {}),
         })
     ev = {
         "property_id": prop,
@@ -72,11 +74,15 @@ def write_evidence(prop, tier, seed, hs, results, wall, nviol, known, inconclusi
             "rule": ("one evaluation = one bounded-model-checking query (a #[kani::proof] harness over kani::any() inputs, "
                      "compiled from /repo's current tree and decided by CBMC for every assignment within the bound). A query is "
                      "counted non-trivial only if CBMC returned SUCCESSFUL with unwinding assertions on and every kani::cover! "
-                     "reachability witness of the harness was SATISFIED (or the harness is complete over a finite space)."),
+                     "reachability witness of the harness was SATISFIED (or the harness is complete over a finite space). "
+                     "Entries with crate 'smt' are instead one run of smt/float_check.py: the MIR of the listed functions is executed "
+                     "symbolically per decimal exponent and every returned double / dev-profile assertion becomes one linear-integer "
+                     "query for z3 and cvc5 ('cbmc_checks' then counts those queries, 'cover_witnesses.satisfied' the concrete runs of "
+                     "the same MIR that reached the interpreted constructor and matched exact rational rounding)."),
             "samples": samples,
             "obligations": obligations,
             "discharged": discharged,
-            "checker_cmd": "cargo kani --harness <name> --exact -Z stubbing (CBMC 6.11, CaDiCaL), one process per harness",
+            "checker_cmd": "cargo kani --harness <name> --exact -Z stubbing (CBMC 6.11, CaDiCaL), one process per harness; crate 'smt': python3 smt/float_check.py (rustc nightly -Zunpretty=mir -> QF_LIA, z3 5.1.0 and cvc5 1.0.3, one process per query)",
             "trusted_base": TRUSTED,
             "functions_encoded": funcs,
             "solver_time_s": round(solver_s, 2),
